@@ -14,7 +14,7 @@ use crate::{
     crypto::hash::HashAlgorithm,
     errors::{bail, ensure, ensure_eq, format_err, InvalidInputSnafu, Result},
     line_writer::LineBreak,
-    normalize_lines::{normalize_lines, NormalizedReader},
+    normalize_lines::normalize_lines,
     packet::{
         Packet, PacketParser, PacketTrait, Signature, SignatureConfig, SignatureType, Subpacket,
         SubpacketData,
@@ -50,16 +50,20 @@ impl CleartextSignedMessage {
         key_pw: &Password,
     ) -> Result<Self>
 where {
-        let mut bytes = text.as_bytes();
-        let signature_text = NormalizedReader::new(&mut bytes, LineBreak::Crlf);
         let hash = config.hash_alg;
-        let signature = config.sign(key, key_pw, signature_text)?;
-
-        Ok(Self {
+        let mut msg = Self {
             csf_encoded_text: dash_escape(text),
             hashes: vec![hash],
-            signatures: vec![signature],
-        })
+            signatures: vec![],
+        };
+
+        // Sign exactly what `verify` checks: the text with trailing whitespace
+        // removed from each line and line endings normalized to CR+LF.
+        let signature_text = msg.signed_text();
+        let signature = config.sign(key, key_pw, signature_text.as_bytes())?;
+        msg.signatures.push(signature);
+
+        Ok(msg)
     }
 
     /// Sign the given text.
@@ -94,7 +98,15 @@ where {
     where
         F: FnOnce(&str) -> Result<Vec<Signature>>,
     {
-        let signature_text = normalize_lines(text, LineBreak::Crlf);
+        let csf_encoded_text = dash_escape(text);
+
+        // The text that is signed, and that `verify` checks: trailing whitespace
+        // removed from each line, line endings normalized to CR+LF.
+        let signature_text = normalize_lines(
+            &dash_unescape_and_trim(&csf_encoded_text),
+            LineBreak::Crlf,
+        )
+        .to_string();
 
         let raw_signatures = signer(&signature_text[..])?;
         let mut hashes = HashSet::new();
@@ -109,7 +121,7 @@ where {
         }
 
         Ok(Self {
-            csf_encoded_text: dash_escape(text),
+            csf_encoded_text,
             hashes: hashes.into_iter().collect(),
             signatures,
         })
